@@ -69,6 +69,9 @@ ARGV_SHAPES = [
 ]
 
 
+TOOL_TIMEOUT_S = 60
+
+
 def run_tool(workdir, header_path, config, argv_shape, hash_seed, fail=False, tag="", keep_existing=False, nightly=False):
     out_path = os.path.join(workdir, "out%s-%d.h" % (tag, hash_seed))
     argv_log = os.path.join(workdir, "argv%s-%d.txt" % (tag, hash_seed))
@@ -98,7 +101,21 @@ def run_tool(workdir, header_path, config, argv_shape, hash_seed, fail=False, ta
         "FAKE_CBINDGEN_ARGV_LOG": argv_log,
         "FAKE_CBINDGEN_EXIT": "1" if fail else "0",
     })
-    p = subprocess.run([BINDGEN] + pre + ["--"] + post, cwd=workdir, env=env, stdout=subprocess.PIPE, stderr=subprocess.PIPE, text=True, errors="replace")
+    # (a tool that never finishes is a tool that rejects the header: bounded wait, whole process group killed)
+    proc = subprocess.Popen([BINDGEN] + pre + ["--"] + post, cwd=workdir, env=env, stdout=subprocess.PIPE, stderr=subprocess.PIPE, text=True, errors="replace", start_new_session=True)
+    try:
+        so, se = proc.communicate(timeout=TOOL_TIMEOUT_S)
+        p = subprocess.CompletedProcess(proc.args, proc.returncode, so, se)
+    except subprocess.TimeoutExpired:
+        try:
+            os.killpg(proc.pid, 9)
+        except OSError:
+            pass
+        try:
+            proc.communicate(timeout=10)
+        except Exception:
+            pass
+        p = subprocess.CompletedProcess(proc.args, -9, "", "the tool did not terminate within %d s (input header: %d bytes)" % (TOOL_TIMEOUT_S, os.path.getsize(header_path)))
     seen = []
     if os.path.exists(argv_log):
         with open(argv_log) as f:
